@@ -111,7 +111,11 @@ def network(draw, unbalanced=False, hazards=()):
         scripts[launcher].insert(pos, ("launch", f))
     # passing style per fiber: which channels arrive as arguments (the rest are captured module variables)
     argstyle = [draw(st.integers(0, 2)) for _ in range(nf + 1)]
-    return {"caps": caps, "scripts": scripts, "argstyle": argstyle, "tags": [draw(st.integers(1, 99)) for _ in range(nf + 1)]}
+    tags = [draw(st.integers(1, 99)) for _ in range(nf + 1)]
+    # payload style: plain numbers, or every value boxed in a fresh list (a heap object that only the channel's
+    # buffer / the parked sender keeps alive while it is in flight)
+    boxed = draw(st.integers(0, 2)) == 0
+    return {"caps": caps, "scripts": scripts, "argstyle": argstyle, "tags": tags, "boxed": boxed}
 
 
 # --------------------------------------------------------------------------------------------- model
@@ -307,6 +311,11 @@ def build_program(net):
     def cref(f, c, params):
         return V("p_" + chan_name(c)) if c in params else V(chan_name(c))
 
+    boxed = net.get("boxed", False)
+
+    def payload(v):
+        return ("list", [N(v)]) if boxed else N(v)
+
     def body_of(f):
         params = params_of(f) if f != 0 else []
         body = []
@@ -332,16 +341,21 @@ def build_program(net):
                 body.append(("expr", ("call", ("prop", cref(f, op[1], params), "close"), [])))
                 body.append(say(f, ["close %s" % chan_name(op[1])]))
             elif k == "send":
-                body.append(("expr", ("send", cref(f, op[1], params), N(op[2]))))
+                body.append(("expr", ("send", cref(f, op[1], params), payload(op[2]))))
                 body.append(say(f, ["send %s %d" % (chan_name(op[1]), op[2])]))
                 body.append(("expr", ("call", V("chk"), [cref(f, op[1], params)])))
             elif k == "trysend":
-                body.append(("try", [("expr", ("send", cref(f, op[1], params), N(op[2]))),
+                body.append(("try", [("expr", ("send", cref(f, op[1], params), payload(op[2]))),
                                      say(f, ["send %s %d" % (chan_name(op[1]), op[2])])],
                              [("e", None, [say(f, ["send-closed %s" % chan_name(op[1])])])]))
             elif k == "recv":
                 tmp = "v%d" % len(body)
-                body.append(("let", tmp, ("recv", cref(f, op[1], params))))
+                if boxed:
+                    body.append(("let", tmp + "b", ("recv", cref(f, op[1], params))))
+                    body.append(("let", tmp, ("tern", ("bin", "==", V(tmp + "b"), ("nil",)), ("nil",),
+                                              ("index", V(tmp + "b"), N(0)))))
+                else:
+                    body.append(("let", tmp, ("recv", cref(f, op[1], params))))
                 body.append(say(f, ["recv %s " % chan_name(op[1]), V(tmp)]))
                 if f != 0:
                     body.append(("if", ("bin", "!=", V(tmp), ("nil",)), [("expr", ("call", ("prop", V("log"), "push"), [V(tmp)]))], None))
